@@ -81,6 +81,25 @@ def statement_kind(sql):
     return sql.strip().split()[0].lower() if sql.strip() else '?'
 
 
+def _hist(args):
+    """Plans of one call history (see planhist): every plan is judged like a stand-alone plan."""
+    sqls, cat, mode = args
+    from . import planhist
+    from .project import plan_proj
+    out = []
+    for sql, st, plan in planhist.run_history(sqls, plancorpus.catalog(cat, with_ts=True), mode):
+        r = {'status': st, 'sql': sql}
+        if plan is not None:
+            try:
+                pp = plan_proj(plan)
+                r['skel'] = skeleton(pp)
+                r['kinds'] = [x['kind'] for x in pp['steps']]
+            except Exception as e:   # noqa
+                r['status'] = 'projection-error:%s' % e
+        out.append(r)
+    return out
+
+
 def run(ctx):
     thorough = ctx.tier == 'thorough'
     from . import c09_builder
@@ -107,6 +126,28 @@ def run(ctx):
             meta.append((sql, cat, r['kinds'], key))
         elif st.startswith('projection-error'):
             raise MachineryError('cannot project plan of %r: %s' % (sql, st))
+    # call histories: one planner object used for several queries / fresh planners sharing the catalog objects
+    import random
+    from . import planhist
+    rng = random.Random(ctx.seed + 9)
+    pool = [s for s, k, q, c in cases if q is None and c == 'names']
+    hs = planhist.histories(rng, 200 if thorough else 40, pool)
+    hwork = [(h, c, m) for h in hs for c in (('names', 'dicts') if thorough else ('names',)) for m in ('planner', 'catalog')]
+    nh = 0
+    for (h, c, m), out in zip(hwork, pmap(_hist, hwork, chunksize=4)):
+        for pos, r in enumerate(out):
+            st = r['status']
+            key = 'history:%s:%s|%s' % (m, c, ' ;; '.join(h[:pos + 1]))
+            if st.startswith('internal:'):
+                ctx.violation('planning-internal-error:%s:history' % st[9:], 'planning fails with an internal error in a call '
+                              'history (%s)' % m, {'history': h[:pos + 1], 'mode': m, 'catalog': c}, pin=(key, st))
+            elif st == 'plan':
+                traces.append(r['skel'])
+                meta.append((r['sql'], c, r['kinds'], key, {'history': h[:pos + 1], 'mode': m}))
+                nh += 1
+            elif st.startswith('projection-error'):
+                raise MachineryError('cannot project plan of %r: %s' % (r['sql'], st))
+    ctx.cov['history_plans'] = nh
     path = ctx.work / 'plantraces.json'
     dump_json(path, traces)
     tr = ctx.tlc('PlanTrace', env={'VERIF_TRACES': path}, name='plantrace', timeout=3000)
@@ -115,12 +156,15 @@ def run(ctx):
     ver = {x[0]: x[1] for x in tr.prints('ACC')}
     if len(ver) != len(traces):
         raise MachineryError('PlanTrace judged %d of %d' % (len(ver), len(traces)))
-    for i, (sql, cat, kinds, key) in enumerate(meta):
+    for i, m_ in enumerate(meta):
+        sql, cat, kinds, key = m_[:4]
+        hist = m_[4] if len(m_) > 4 else None
         for flag in ver[i + 1]:
             has_mr = 'MapReduceStep' in kinds
-            ctx.violation('%s:%s' % (flag, 'with-partition' if has_mr else statement_kind(sql)),
-                          'the plan violates %s' % flag,
-                          {'sql': sql, 'catalog': cat, 'steps': traces[i]['steps']}, pin=(key, flag))
+            where = 'history' if hist else ('with-partition' if has_mr else statement_kind(sql))
+            ctx.violation('%s:%s' % (flag, where),
+                          'the plan violates %s' % flag + (' (planned after other queries, %s reused)' % hist['mode'] if hist else ''),
+                          {'sql': sql, 'catalog': cat, 'steps': traces[i]['steps'], 'history': hist}, pin=(key, flag))
     ctx.cov['traces_validated_against_impl'] = len(traces)
     ctx.cov['evaluations'] = len(cases)
     ctx.cov['planning_outcomes'] = status
